@@ -122,7 +122,10 @@ Init == /\ tstate = [t \in T |-> S_UNUSED] /\ rules = [t \in T |-> <<>>] /\ tagR
 (* bitmap a call site gets when it is first seen: the stored rules replayed *)
 Replay(s) == {t \in T : (IF "kf1" \in Bugs THEN tstate[t] = S_ENABLED ELSE Used(t)) /\ Sel(rules[t], s)}
 BitsOf(s) == IF s \in Known THEN bits[s] ELSE Replay(s)
-TagSeen(s) == IF s \in Known THEN tagv[s] ELSE TagOf(tagRules, s)
+(* a call site may pass a tag of its own (here: line numbers from 100 on stand for "own tag = line - 100"); that tag is
+   what is reported, whatever the tag rules say and whenever they were added *)
+OwnTag(s) == IF Line(s) >= 100 THEN Line(s) - 100 ELSE 0
+TagSeen(s) == IF OwnTag(s) # 0 THEN OwnTag(s) ELSE IF s \in Known THEN tagv[s] ELSE TagOf(tagRules, s)
 (* the targets whose logger callback runs for a log call from s *)
 Delivery(s) == {t \in BitsOf(s) : tstate[t] = S_ENABLED}
 
@@ -318,11 +321,11 @@ DeliveryIffSelected ==
 Routing == \A s \in Known, t \in T : (t \in bits[s]) <=> (Used(t) /\ Sel(rules[t], s))
 
 (* "tag filters set the tag value reported with the message in the same way" *)
-TagRouting == \A s \in Sites \cup Known : TagSeen(s) = TagOf(tagRules, s)
+TagRouting == \A s \in Sites \cup Known : TagSeen(s) = (IF OwnTag(s) # 0 THEN OwnTag(s) ELSE TagOf(tagRules, s))
 
 (* order independence stated directly on twins: call sites with identical attributes (created at
    different points of the history, differing only in the line) are treated identically *)
-SameAttrs(a, b) == File(a) = File(b) /\ Func(a) = Func(b) /\ Prio(a) = Prio(b) /\ Fmt(a) = Fmt(b)
+SameAttrs(a, b) == File(a) = File(b) /\ Func(a) = Func(b) /\ Prio(a) = Prio(b) /\ Fmt(a) = Fmt(b) /\ OwnTag(a) = OwnTag(b)
 Twins == \A a, b \in Sites \cup Known : SameAttrs(a, b) => Delivery(a) = Delivery(b) /\ TagSeen(a) = TagSeen(b)
 
 (* a slot that is not open has no filters: a re-opened slot starts empty *)
